@@ -688,8 +688,13 @@ def c02_r6(ctx):
         ctx.viol((e.id, "history-write-shape"), "cannot find the Some(ticket)/Some(history) tests before write_rule_history", w.where)
     else:
         # from the inner Some edge, the header cannot be reached without the write
-        starts = [b for (a, b) in some_h if e.dominated_by_edges(a, some_t)] or [b for (a, b) in some_t if e.dominated_by_edges(a, some_h)]
-        r = e.reach(starts, avoid_blocks=[w.bb])
+        # (whichever of the two is tested first: after `a ticket is there`, only `no history`
+        #  may lead on without the write, and the other way round - nothing else, e.g. not the
+        #  state of other rules)
+        none_t = e.edges_of_value_variant({el + (("field", 0),) for el in jl["elem"]}, "None")
+        none_h = e.edges_of_value_variant({o + (("field", "rule_history"),) for o in wr}, "None")
+        r = e.reach([b for (_, b) in some_t], avoid_blocks=[w.bb], avoid_edges=none_h) | \
+            e.reach([b for (_, b) in some_h], avoid_blocks=[w.bb], avoid_edges=none_t)
         if jl["header"] in r:
             ctx.viol((e.id, "history-write-skipped"), "a finished rule's history can go unwritten", w.where)
         else:
@@ -844,6 +849,75 @@ def c17_r2(ctx):
                 ctx.viol((f.id, "insert-error-ignored"), "a failed history insert can still yield success", i.where)
 
 
+def _compare_by_zip(ctx, f, pushes):
+    """The element-wise form of the comparison:
+    `a.infos.iter().zip(b.infos.iter()).enumerate().filter(|(_, (x, y))| x.ticket != y.ticket).map(|(i, _)| i).collect()`
+    (read after desugaring as a loop).  Returns True if compare is written that way (and judges it)."""
+    zips = [c for c in f.calls if c.path == "std::iter::Iterator::zip"]
+    if len(zips) != 1 or len(pushes) != 1:
+        return False
+    z, p = zips[0], pushes[0]
+    lps = [lp for lp in f.loops() if p.bb in lp["body"]]
+    if not lps:
+        return False
+    lp = min(lps, key=lambda l: len(l["body"]))
+    if not (lp["iter"] and all(("truncate", "zip") in o and ("adapt", "enumerate") in o for o in lp["iter"])):
+        return False
+    ctx.inst("index push (zip form)", p.where)
+
+    def side(op):
+        org = f.origins_of_operand(op)
+        if org and all(o[0][0] == "param" and ("field", "infos") in o and all(st[0] in ("field", "iter") for st in o[1:]) for o in org):
+            return {o[0][1] for o in org}
+        return None
+    s0, s1 = side(z.args[0]), side(z.args[1])
+    if s0 is None or s1 is None or s0 | s1 != {1, 2} or s0 == s1:
+        ctx.viol((f.id, "compare-operands-zip"), "the lists compared element by element are not self.infos and other.infos in full", z.where)
+        return True
+    if any(st[0] == "truncate" and st[1] != "zip" for o in lp["iter"] for st in o[1:]):
+        ctx.viol((f.id, "compare-early-exit"), "the comparison does not cover every position", f.where(lp["header"]))
+        return True
+    # zip stops at the shorter list: the lengths must have been found equal
+
+    def lens_differ(d):
+        def is_len(op, k):
+            for o in f.origins_of_operand(op):
+                if o[0][0] == "call" and len(o) == 1 and o[0][3].split("::")[-1] == "len":
+                    a = f.origins_of_operand(f.call_at[o[0][2]].args[0])
+                    if a and all(x[0] == ("param", k) and ("field", "infos") in x for x in a):
+                        return True
+            return False
+        return (is_len(d["a"], 1) and is_len(d["b"], 2)) or (is_len(d["a"], 2) and is_len(d["b"], 1))
+    eq_len = f.cmp_edges(lambda d: d["op"] == "Ne" and lens_differ(d), False) | f.cmp_edges(lambda d: d["op"] == "Eq" and lens_differ(d), True)
+    if not f.dominated_by_edges(z.bb, eq_len):
+        ctx.viol((f.id, "zip-without-length-check"), "targets are compared pairwise without the two lists having been found equally long: surplus targets would be ignored", z.where)
+        return True
+    elem = lp["elem"]
+    if f.origins_of_operand(p.args[1]) != {e + (("field", 0),) for e in elem}:
+        ctx.viol((f.id, "index-not-position"), "the value reported is not the position of the differing pair", p.where)
+        return True
+
+    def differ(d):
+        if "call" not in d or d["call"].self_ty != "ticket::Ticket":
+            return False
+        ao, bo = f.origins_of_operand(d["a"]), f.origins_of_operand(d["b"])
+        want0 = {e + (("field", 1), ("field", 0), ("field", "ticket")) for e in elem}
+        want1 = {e + (("field", 1), ("field", 1), ("field", "ticket")) for e in elem}
+        return (ao == want0 and bo == want1) or (ao == want1 and bo == want0)
+    edges = f.cmp_edges(lambda d: d["op"] == "Ne" and differ(d), True) | f.cmp_edges(lambda d: d["op"] == "Eq" and differ(d), False)
+    if not edges:
+        raise AnalysisError("idiom not recognised: %s zips the two lists but the tickets of a pair are not compared in a form this rule reads" % f.id)
+    if not f.dominated_by_edges(p.bb, edges):
+        ctx.viol((f.id, "index-push-unguarded"), "a position is reported without the two tickets at that position having been found different", p.where)
+    elif lp["header"] in f.reach([x for (_, x) in edges], avoid_blocks=[p.bb]):
+        ctx.viol((f.id, "differing-index-dropped"), "a differing target can go unreported", p.where)
+    elif f.loop_exits(lp):
+        ctx.viol((f.id, "compare-early-exit"), "the comparison loop can stop early", f.where(lp["header"]))
+    else:
+        ctx.ok()
+    return True
+
+
 @rule("C17.R3", floor=2)
 def c17_r3(ctx):
     """Exactly the differing targets are named: the comparison pushes index i under the edge
@@ -853,7 +927,8 @@ def c17_r3(ctx):
     ctx.saw(f)
     pushes = f.calls_to("std::vec::Vec::<T, A>::push")
     ctx.need(pushes, "index push in compare")
-    for p in pushes:
+    zipped = _compare_by_zip(ctx, f, pushes)
+    for p in ([] if zipped else pushes):
         ctx.inst("index push", p.where)
         io = f.origins_of_operand(p.args[1])
 
@@ -1289,3 +1364,39 @@ def c04_r7(ctx):
                 else:
                     ctx.viol((f.id, "exit-status-altered", fld), "CommandLineOutput.%s is not the process's own `status.%s()` (derives from %s): how a command ended would be misjudged, e.g. a command killed by a signal counted as exit code 0" % (fld, want.split("::")[-1], sorted(map(fmt_origin, org))[:3]), f.where(bb, idx))
     ctx.need(n, "a production construction of system::CommandLineOutput")
+
+
+@rule("C01.R11", floor=2)
+def c01_r11(ctx):
+    """The hashes handed on are hashes just taken: every ticket put into a FileStateVec by a
+    function that looks at the file system (current states, states after resolution, states
+    after a command) is the Ok payload of a hashing / state-reading call made in that
+    function - never a ticket remembered in the blob."""
+    P = ctx.P
+    n = 0
+    for f in P.fns.values():
+        if f.body.get("in_test") or f.kind == "promoted" or f.body.get("derived"):
+            continue
+        if not f.body["span"]["file"].endswith("blob.rs") or not effects(P, f.id):
+            continue
+        for c in f.calls_to("blob::FileStateVec::from_ticket_vec"):
+            n += 1
+            ctx.saw(f)
+            ctx.inst("state vector built in %s" % f.id, c.where)
+            vals = f.contents_of_vector(c.args[0])
+            if vals is None:
+                raise AnalysisError("idiom not recognised: the ticket vector given to from_ticket_vec in %s is not a locally built vector of pushed values" % f.id)
+            bad = []
+            for o in vals:
+                ok = False
+                if o[0][0] == "call" and len(o) >= 3 and o[1] == ("variant", "Ok") and o[2] == ("field", 0):
+                    tg = P.local_targets(f.call_at[o[0][2]])
+                    if tg and effects(P, tg[0]):
+                        ok = True
+                if not ok:
+                    bad.append(o)
+            if bad:
+                ctx.viol((f.id, "remembered-hash-handed-on"), "a hash put into the state vector is not one just computed from the file (it derives from %s): dependents and the history would be given a remembered hash for a file that may have changed" % sorted(map(fmt_origin, bad))[:2], c.where)
+            else:
+                ctx.ok()
+    ctx.need(n, "a from_ticket_vec call in a function that reads the file system")
